@@ -776,7 +776,10 @@ def c13(tier):
     for und in (0, 1):
         for lab in (0, 1):
             obs.append(txt_ob("C13", 1, und=und, lab=lab, lines=2 if tier == "quick" else 3, timeout=300 if tier == "quick" else 3400, mem_gb=8 if tier == "quick" else 16))
-            obs.append(txt_ob("C13", 3, und=und, lab=lab, n=3 if not und else 2, emaxw=2))
+            if not und or tier == "thorough":
+                obs.append(txt_ob("C13", 3, und=und, lab=lab, n=3 if not und else 2, emaxw=2, **({"mem_gb": 14, "timeout": 1800} if und else {})))
+            else:
+                obs.append(txt_ob("C13", 3, und=und, lab=lab, n=2, emaxw=1, mem_gb=8))
         obs.append(txt_ob("C13", 2, und=und, lab=0, lines=2 if tier == "quick" else 3, timeout=300 if tier == "quick" else 3400, mem_gb=8 if tier == "quick" else 16))
     return obs
 
